@@ -18,8 +18,10 @@ import (
 	"encoding/json"
 	"fmt"
 	"net"
+	"runtime"
 	"sort"
 	"strings"
+	"sync"
 	"testing"
 	"time"
 
@@ -69,6 +71,11 @@ type Req struct {
 type Case struct {
 	MTU    int     `json:"mtu"`
 	Bursts [][]Req `json:"bursts"`
+	// Hold[i]: while burst i is injected the link endpoint blocks in
+	// WritePacket (a slow device) for every frame emitted by a goroutine other
+	// than the injecting one, so the requests of the burst really are pending
+	// together; the frames are released when the burst is complete.
+	Hold []bool `json:"hold,omitempty"`
 }
 
 // ---------------------------------------------------------------------------
@@ -527,11 +534,40 @@ func runOnce(c Case, deadline time.Duration, rec bool) (fail, miss *evid.Failure
 			st.RemoveAddress(1, a)
 		}
 	}()
+	var (
+		gmu  sync.Mutex
+		gate chan struct{}
+		me   = goid()
+	)
+	tap.SetForward(func(netsim.Frame) {
+		gmu.Lock()
+		g := gate
+		gmu.Unlock()
+		if g == nil || goid() == me {
+			return // not holding, or emitted synchronously from inside the injection
+		}
+		select {
+		case <-g:
+		case <-time.After(2 * time.Second): // never wedge the stack should injection depend on emission
+			if rec {
+				evid.Label("hold:released-by-timeout")
+			}
+		}
+	})
 	var sents []*sent
 	n := 0
 	for bi, burst := range c.Bursts {
 		if len(burst) > 9 {
 			burst = burst[:9] // never ten or more pending: the statement only promises answers below that
+		}
+		hold := bi < len(c.Hold) && c.Hold[bi]
+		if hold {
+			gmu.Lock()
+			gate = make(chan struct{})
+			gmu.Unlock()
+			if rec {
+				evid.Label(fmt.Sprintf("hold:burst-of-%d", len(burst)))
+			}
 		}
 		for i, r := range burst {
 			if r.Kind != "echo" {
@@ -566,6 +602,12 @@ func runOnce(c Case, deadline time.Duration, rec bool) (fail, miss *evid.Failure
 				recordReq(s, len(burst), len(pk))
 			}
 		}
+		if hold {
+			gmu.Lock()
+			close(gate)
+			gate = nil
+			gmu.Unlock()
+		}
 		// wait until every request to an owned address has its reply
 		end := time.Now().Add(deadline)
 		for {
@@ -597,6 +639,18 @@ func runOnce(c Case, deadline time.Duration, rec bool) (fail, miss *evid.Failure
 		}
 	}
 	return f, nil
+}
+
+// goid returns the current goroutine's number (from the stack header; the
+// harness only compares it with the injecting goroutine's).
+func goid() string {
+	var buf [40]byte
+	b := buf[:runtime.Stack(buf[:], false)]
+	b = bytes.TrimPrefix(b, []byte("goroutine "))
+	if i := bytes.IndexByte(b, ' '); i > 0 {
+		b = b[:i]
+	}
+	return string(b)
 }
 
 func recordReq(s *sent, burstLen, npk int) {
@@ -689,22 +743,35 @@ func genU16(rt *rapid.T, label string) uint16 {
 	return rapid.Uint16().Draw(rt, label)
 }
 
-func genReq(rt *rapid.T, mtu int, prev []Req, noOdd6 bool) Req {
-	if len(prev) > 0 && rapid.IntRange(0, 11).Draw(rt, "repeat") == 0 {
+// focus pins family and destination of every request of a burst.
+type focus struct {
+	v6  bool
+	dst int
+}
+
+// protoReq is a generated request plus an optional instruction to repeat the
+// request `back` positions earlier in the case instead (resolved in genCase).
+type protoReq struct {
+	r       Req
+	back    int
+	asReply bool
+}
+
+func genReq(rt *rapid.T, mtu int, noOdd6 bool, fo *focus) protoReq {
+	var pr protoReq
+	if fo == nil && rapid.IntRange(0, 11).Draw(rt, "repeat") == 11 {
 		// the same request again, or an echo *reply* that looks like an earlier request
-		r := prev[rapid.IntRange(0, len(prev)-1).Draw(rt, "repeat-of")]
-		if rapid.Bool().Draw(rt, "as-reply") && r.Kind == "echo" {
-			r.Kind, r.Type, r.FragAt = "other", 0, nil
-			if r.V6 {
-				r.Type = 129
-			}
-		}
-		return r
+		pr.back = rapid.IntRange(1, 9).Draw(rt, "repeat-back")
+		pr.asReply = rapid.Bool().Draw(rt, "as-reply")
 	}
 	var r Req
-	r.V6 = rapid.Bool().Draw(rt, "v6")
+	if fo != nil {
+		r.V6 = fo.v6
+	} else {
+		r.V6 = rapid.Bool().Draw(rt, "v6")
+	}
 	r.Kind = "echo"
-	if rapid.IntRange(0, 6).Draw(rt, "other") == 0 {
+	if fo == nil && rapid.IntRange(0, 6).Draw(rt, "other") == 0 {
 		r.Kind = "other"
 		if r.V6 {
 			r.Type = rapid.SampledFrom(others6).Draw(rt, "type6")
@@ -713,7 +780,11 @@ func genReq(rt *rapid.T, mtu int, prev []Req, noOdd6 bool) Req {
 		}
 		r.Code = uint8(rapid.IntRange(0, 5).Draw(rt, "code"))
 	}
-	r.Dst = rapid.SampledFrom([]int{0, 0, 0, 1, 1, 1, 2, 3}).Draw(rt, "dst")
+	if fo != nil {
+		r.Dst = fo.dst
+	} else {
+		r.Dst = rapid.SampledFrom([]int{0, 0, 0, 1, 1, 1, 2, 3}).Draw(rt, "dst")
+	}
 	if r.Dst >= 2 {
 		r.DstV = rapid.IntRange(0, 2).Draw(rt, "dstv")
 	}
@@ -824,24 +895,57 @@ func genReq(rt *rapid.T, mtu int, prev []Req, noOdd6 bool) Req {
 			evid.Exclude("F7:ipv6-odd-nonfinal-payload-view")
 		}
 	}
-	return r
+	pr.r = r
+	return pr
+}
+
+type protoBurst struct {
+	hold bool
+	reqs []protoReq
 }
 
 func genCase(rt *rapid.T) Case {
 	var c Case
 	c.MTU = rapid.SampledFrom(mtus).Draw(rt, "mtu")
 	noOdd6 := evid.IsKnownListed("F7")
-	nb := rapid.IntRange(1, 3).Draw(rt, "bursts")
-	var prev []Req
-	for b := 0; b < nb; b++ {
-		n := rapid.IntRange(1, 9).Draw(rt, "burst-size")
+	reqGen := func(fo *focus) *rapid.Generator[protoReq] {
+		return rapid.Custom(func(rt *rapid.T) protoReq { return genReq(rt, c.MTU, noOdd6, fo) })
+	}
+	burstGen := rapid.Custom(func(rt *rapid.T) protoBurst {
+		var b protoBurst
+		switch rapid.IntRange(0, 5).Draw(rt, "burst-kind") {
+		case 5: // held, all requests to one owned address: they queue up behind the first reply
+			b.hold = true
+			fo := &focus{v6: rapid.Bool().Draw(rt, "focus-v6"), dst: rapid.IntRange(0, 1).Draw(rt, "focus-dst")}
+			n := rapid.SampledFrom([]int{2, 5, 8, 9, 9, 9}).Draw(rt, "held-size")
+			b.reqs = rapid.SliceOfN(reqGen(fo), n, n).Draw(rt, "held-requests")
+		case 4:
+			b.hold = true
+			fallthrough
+		default:
+			b.reqs = rapid.SliceOfN(reqGen(nil), 1, 9).Draw(rt, "requests")
+		}
+		return b
+	})
+	var all []Req
+	for _, b := range rapid.SliceOfN(burstGen, 1, 3).Draw(rt, "bursts") {
 		var burst []Req
-		for i := 0; i < n; i++ {
-			r := genReq(rt, c.MTU, prev, noOdd6)
+		for _, pr := range b.reqs {
+			r := pr.r
+			if pr.back > 0 && len(all) >= pr.back {
+				r = all[len(all)-pr.back]
+				if pr.asReply && r.Kind == "echo" {
+					r.Kind, r.Type, r.FragAt = "other", 0, nil
+					if r.V6 {
+						r.Type = 129
+					}
+				}
+			}
 			burst = append(burst, r)
-			prev = append(prev, r)
+			all = append(all, r)
 		}
 		c.Bursts = append(c.Bursts, burst)
+		c.Hold = append(c.Hold, b.hold)
 	}
 	return c
 }
